@@ -379,7 +379,11 @@ func enumerateFaults(evs []*Ev, rng *SplitMix, thorough, errors, torn bool) []Fa
 					offs[n] = true
 				}
 			} else {
-				for i := 0; i < 4; i++ {
+				n := 4
+				if e.Len > 4096 {
+					n = 10 // long lines: more cut points, in particular beyond the first block
+				}
+				for i := 0; i < n; i++ {
 					offs[1+rng.Intn(e.Len-1)] = true
 				}
 			}
@@ -482,6 +486,39 @@ func runCrashSweep(bin, prop string, seed uint64, thorough bool) *RunReport {
 	}
 	if !found {
 		return r.Report()
+	}
+	// size dimension: every third sample carries a payload of several KB (or
+	// more than the 64 KB scanner block), so that one event line spans many
+	// blocks and one command's batch exceeds common buffer sizes
+	if rng.Chance(1, 3) {
+		size := []int{4200, 9000, 70000, 20000}[rng.Intn(4)]
+		big := bigText(rng, size)
+		switch target.Op {
+		case "new_task", "new_epic":
+			if target.Mode == "flags" {
+				target.Mode = "json"
+			}
+			target.Body = &big
+			if target.Op == "new_task" && prop == "C04" && target.Claim == nil && target.State == nil {
+				target.Claim = sp("big@h")
+			}
+		case "set":
+			if target.Mode == "flags" {
+				target.Mode = "json"
+			}
+			target.Body = &big
+			if prop == "C04" && target.State == nil && target.Claim == nil {
+				target.Title = sp("retitled with a big body")
+			}
+		default:
+			if id, ok := g.liveOf(r.M, isTask); ok {
+				target = Cmd{Op: "set", ID: id, Body: &big, Title: sp("big body and title")}
+			}
+		}
+		if r.M.Predict(target).Class == MustFail {
+			return r.Report()
+		}
+		r.W.Count.Inc("crash.big_payload_samples")
 	}
 	snap := r.Snapshot()
 	base := len(sc.Steps)
@@ -593,4 +630,18 @@ func ReplayCrash(bin string, sc *Scenario) *RunReport {
 		}
 	}
 	return r.Report()
+}
+
+func bigText(rng *SplitMix, size int) string {
+	var b strings.Builder
+	words := []string{"lorem", "ipsum", "dolor", "sit", "amet", "日本語", "emoji🚀", "\"quoted\"", "back\\slash", "<html&>"}
+	for b.Len() < size {
+		b.WriteString(words[rng.Intn(len(words))])
+		if rng.Chance(1, 12) {
+			b.WriteByte('\n')
+		} else {
+			b.WriteByte(' ')
+		}
+	}
+	return b.String()
 }
